@@ -33,6 +33,7 @@ def run(ck, tier):
     collapse_extent(ck, p, "R-C02-condense")
     typst_order(ck, p, "R-C02-order")
     _adjacent(ck, p, byk)
+    _fallback(ck, p)
     from . import c04, c05
     c04._byte_lengths(c05._Sub(ck, "R-C02-units", ""), p)
     c04._typst_verbatim(c05._Sub(ck, "R-C02-units", ""), p)
@@ -1126,3 +1127,59 @@ def typst_order(ck, p, rule):
                             else:
                                 ck.refuted(rule, key, f.loc(ln), "%s: the tokens of %s() are emitted before those of %s() (%s), but in the source `%s` comes first: the token stream is not in increasing order, and passes that join neighbouring tokens (number + suffix, contractions) build spans with start > end" % (ti, ai, aj, how, aj))
     ck.floor(rule, "ordered concatenations of AST parts in the Typst translator", n_sites, 3)
+
+
+# ---------------------------------------------------------------------------------------------------
+FB_SCOPE = re.compile(r"^(harper_core::(lexing|parsers|patterns|mask|document|span)|harper_comments|harper_html|harper_typst|harper_literate_haskell|harper_tree_sitter|harper_ls::git_commit_parser)(::|$)")
+ITER_ADAPT = {"iter", "into_iter", "enumerate", "copied", "cloned", "by_ref", "peekable"}
+
+
+def _fallback(ck, p):
+    """`s.iter().position(pred).unwrap_or(t.len())`: "not found" stands for "the whole slice", so the
+    fallback has to be the length of the slice that was searched.  The length of another slice - the
+    uncut input where a sub-slice was searched - yields an end index beyond the searched slice, and a
+    token (or cut) built from it reaches past the text."""
+    rule = "R-C02-fallback"
+    ck.rule(rule, "where a front end takes `position(..)` of a slice and falls back to a length when nothing is found (unwrap_or(x.len())), x is the very slice that was searched: the length of a different slice (the uncut input, where a sub-slice was searched) makes the resulting index run past the searched slice - a lexer then returns a token longer than the remaining text")
+    n = 0
+    for f in sorted(p.fns.values(), key=lambda g: g.name):
+        if not FB_SCOPE.match(f.name):
+            continue
+        pv = None
+        k = 0
+        for bi, t in f.calls():
+            if method(t) != "unwrap_or" or len(t["args"]) != 2:
+                continue
+            pv = pv or Prov(f)
+            srch = [o for o in pv.trace_operand(t["args"][0]) if o[0] == "call" and last(norm(o[2] or "")) in ("position", "rposition")]
+            lens = [o for o in pv.trace_operand(t["args"][1]) if o[0] == "call" and last(norm(o[2] or "")) == "len"]
+            if len(srch) != 1 or len(lens) != 1 or len(pv.trace_operand(t["args"][0])) != 1 or len(pv.trace_operand(t["args"][1])) != 1:
+                continue
+
+            def base(op, depth=0):
+                """origins of the slice an iterator chain walks"""
+                out = set()
+                for o in pv.trace_operand(op):
+                    if o[0] == "call" and last(norm(o[2] or "")) in ITER_ADAPT | {"position", "rposition"} and depth < 8:
+                        ct = f.blocks[o[1]]["t"]
+                        if last(norm(o[2] or "")) in ("position", "rposition") and depth > 0:
+                            continue        # the &mut iterator's own def chain lists the consumer too
+                        out |= base(ct["args"][0], depth + 1)
+                    else:
+                        out.add(o[:3] if o[0] == "call" else o)
+                return out
+            b1 = base(f.blocks[srch[0][1]]["t"]["args"][0], 1)
+            b2 = {o[:3] if o[0] == "call" else o for o in pv.trace_operand(f.blocks[lens[0][1]]["t"]["args"][0])}
+            if not b1 or not b2:
+                continue
+            n += 1
+            k += 1
+            ck.saw(f)
+            key = "%s:fallback#%d" % (keyname(p, f), k)
+            if b1 == b2:
+                ck.proved(rule, key, f.loc(t["ln"]), "the fallback is the length of the searched slice")
+            elif any(o[0] == "call" and last(norm(o[2] or "")) in ("index", "get", "split_at", "get_content") for o in b1) and not any(o[0] == "call" for o in b2):
+                ck.refuted(rule, key, f.loc(t["ln"]), "position() searches a sub-slice, but when nothing is found the length of the uncut slice is used instead of the sub-slice's: the index that results lies beyond the end of what was searched (by the offset of the sub-slice), and a token or cut built from it reaches past the text")
+            else:
+                ck.undecided(rule, key, f.loc(t["ln"]), "the searched slice and the slice whose length is the fallback are not recognisably the same (%s vs %s)" % (sorted(map(str, b1))[:2], sorted(map(str, b2))[:2]))
+    ck.floor(rule, "position(..).unwrap_or(len) sites in the front ends", n, 2)
